@@ -302,6 +302,41 @@ theorem envelope (g d : Nat) (sz : α → Nat) (cap ivl r0 : Nat) (evs : List (E
     exact Nat.min_le_left _ _
   exact envelope_run g d sz cap ivl evs _ 0 _ hinv hm
 
+/-- ★ T2b `envelope_after_change` (the bound is piecewise across rate changes): from ANY state, after a
+`SetRate(r)` at `now` — between ticks or re-entrantly from a next writer in the middle of a tick, which is the event
+sequence `tick now, setRate now r, drain …, tick now` — and along every further event sequence, the bits released
+AFTER the change never exceed the NEW burst `burst(r, interval)` plus `Σ rateᵢ·Δtᵢ` since the change, however large
+the old burst was (both sides in units of `1/g` bit). -/
+theorem envelope_after_change (g d : Nat) (sz : α → Nat) (cap ivl : Nat) (st : St α XTB) (now r : Nat)
+    (evs : List (Ev α)) (hm : Mono now evs) :
+    g * bits sz (run (xcfg g d sz cap ivl) (exec (xcfg g d sz cap ivl) st (.setRate now r)) evs).delivered
+      ≤ g * bits sz st.delivered + g * burstOf r ivl + credit r now evs := by
+  have hs := setRate_no_gain g d st.lim now r (burstOf r ivl)
+  have e : (exec (xcfg g d sz cap ivl) st (.setRate now r)).lim = st.lim.setRate g d now r (burstOf r ivl) := rfl
+  have e2 : (exec (xcfg g d sz cap ivl) st (.setRate now r)).delivered = st.delivered := rfl
+  have hb : (st.lim.setRate g d now r (burstOf r ivl)).burst = burstOf r ivl := rfl
+  have hcap := advance_cap g d (st.lim.setRate g d now r (burstOf r ivl)) now
+  have hinv : EnvInv g d sz (exec (xcfg g d sz cap ivl) st (.setRate now r)) now
+      (g * burstOf r ivl + g * bits sz st.delivered) := by
+    refine ⟨?_, ?_⟩
+    · intro l hl
+      rw [e, hs.2.2] at hl; cases hl; exact Nat.le_refl _
+    · rw [e, e2]
+      rw [hb] at hcap
+      have : burstOf r ivl * g = g * burstOf r ivl := Nat.mul_comm _ _
+      omega
+  have := envelope_run g d sz cap ivl evs _ now _ hinv hm
+  rw [e, hs.2.1] at this
+  omega
+
+/-- non-vacuity of `envelope_after_change`: the old burst (500000 bit at 100 Mbit/s) is full and 60 packets of 9600
+bit are queued when the rate is cut to 1 Mbit/s; the tick at the same instant releases one packet (9600 < 12000), not
+the old burst. -/
+example : (run (xcfg 1000 77 (fun _ => 1200) 100 5000)
+    (exec (xcfg 1000 77 (fun _ => 1200) 100 5000)
+      { (St.init (XTB.init 1000 100000000 500000) : St Nat XTB) with loc := List.replicate 60 0 } (.setRate 5000000 1000000))
+    [.tick 5000000]).delivered.length = 1 := by decide
+
 /-- non-vacuity of `envelope`: a concrete run (1 Mbit/s, 5 ms, scale 1000) releases packets and
 meets the bound with room to spare. -/
 example : Mono 0 ([.accept 100, .accept 200, .drain, .drain, .tick 5000000, .setRate 6000000 500000,
